@@ -1,9 +1,10 @@
 ----------------------------- MODULE MC_Engine -----------------------------
-(* Bounded instances of Engine (C13): at most MaxOps operations (nested ones included). *)
+(* Bounded instances of Engine (C13): at most MaxOps operations (nested ones included),
+   before and after the gateway is started (Bind). *)
 EXTENDS Engine
 CONSTANTS MaxOps
 NStarts == Cardinality({i \in 1..Len(h) : h[i][1] = "start"})
-BNext == (NStarts < MaxOps /\ \E op \in {"get_state", "restore"} : Start(op)) \/ Step
+BNext == (NStarts < MaxOps /\ \E op \in {"get_state", "restore"} : Start(op)) \/ Step \/ Bind
 BSpec == Init /\ [][BNext]_vars
-View == <<es, hdl, snd, rd, pw, disc, saved, calls, done, NStarts>>
+View == <<es, hdl, snd, rd, pw, disc, tr, saved, calls, done, NStarts, BodyRaised>>
 =============================================================================
